@@ -72,3 +72,81 @@ def fmtEntry (off gen : Nat) (inUse : Bool) : Str :=
   padDec 10 off ++ [32] ++ padDec 5 gen ++ [32] ++ [if inUse then 110 else 102]
 
 end Tabula.XrefBytes
+
+/-! ### `strings.TrimSpace` / `strings.Fields` on arbitrary bytes
+
+Go decodes UTF-8: besides the six ASCII characters, U+0085, U+00A0, U+1680, U+2000–U+200A,
+U+2028, U+2029, U+202F, U+205F and U+3000 are white space (`unicode.IsSpace`); an invalid
+sequence is U+FFFD (not white space) and one byte long. The lead bytes of these encodings are
+never continuation bytes, so looking for the encodings byte by byte is exact. -/
+namespace Tabula.XrefBytes
+open Tabula.A1
+
+/-- length of the encoding of a white-space character at the head of `s`; 0: none there -/
+def uspLen : Str → Nat
+  | [] => 0
+  | c :: r =>
+    if c < 128 then (if isSpace c then 1 else 0)
+    else if c = 194 then (match r with | d :: _ => if d = 133 ∨ d = 160 then 2 else 0 | [] => 0)
+    else if c = 225 then (match r with | 154 :: 128 :: _ => 3 | _ => 0)
+    else if c = 226 then
+      (match r with
+       | 128 :: d :: _ => if (128 ≤ d ∧ d ≤ 138) ∨ d = 168 ∨ d = 169 ∨ d = 175 then 3 else 0
+       | 129 :: 159 :: _ => 3
+       | _ => 0)
+    else if c = 227 then (match r with | 128 :: 128 :: _ => 3 | _ => 0)
+    else 0
+
+/-- the same on the reversed string: length of the encoding of a white-space character that
+ends the string (`utf8.DecodeLastRuneInString`) -/
+def uspLenRev : Str → Nat
+  | [] => 0
+  | c :: r =>
+    if c < 128 then (if isSpace c then 1 else 0)
+    else
+      match r with
+      | 194 :: _ => if c = 133 ∨ c = 160 then 2 else 0
+      | 154 :: 225 :: _ => if c = 128 then 3 else 0
+      | 129 :: 226 :: _ => if c = 159 then 3 else 0
+      | 128 :: 227 :: _ => if c = 128 then 3 else 0
+      | 128 :: 226 :: _ => if (128 ≤ c ∧ c ≤ 138) ∨ c = 168 ∨ c = 169 ∨ c = 175 then 3 else 0
+      | _ => 0
+
+def trimLeftU : Nat → Str → Str
+  | 0, s => s
+  | f + 1, s => if uspLen s = 0 then s else trimLeftU f (s.drop (uspLen s))
+
+def trimRevU : Nat → Str → Str
+  | 0, s => s
+  | f + 1, s => if uspLenRev s = 0 then s else trimRevU f (s.drop (uspLenRev s))
+
+/-- `strings.TrimSpace` -/
+def trimSpaceU (s : Str) : Str :=
+  let l := trimLeftU s.length s
+  (trimRevU l.length l.reverse).reverse
+
+/-- `strings.Fields` -/
+def fieldsAuxU : Nat → Str → Str → List Str
+  | 0, _, cur => if cur.isEmpty then [] else [cur.reverse]
+  | _ + 1, [], cur => if cur.isEmpty then [] else [cur.reverse]
+  | f + 1, c :: r, cur =>
+    if uspLen (c :: r) = 0 then fieldsAuxU f r (c :: cur)
+    else if cur.isEmpty then fieldsAuxU f ((c :: r).drop (uspLen (c :: r))) []
+    else cur.reverse :: fieldsAuxU f ((c :: r).drop (uspLen (c :: r))) []
+
+def fieldsU (s : Str) : List Str := fieldsAuxU (s.length + 1) s []
+
+/-- `parseEntry(line)` on arbitrary bytes: (offset, generation, inUse) -/
+def parseEntryU (line : Str) : Option (Int × Int × Bool) :=
+  if line.length < 18 then none else
+  let offsetStr := trimSpaceU (line.take 10)
+  let genStr := trimSpaceU ((line.drop 10).take 6)
+  let flag := trimSpaceU ((line.drop 16).take 2)
+  match atoi offsetStr, atoi genStr with
+  | some off, some gen =>
+    if flag = [110] then some (off, gen, true)
+    else if flag = [102] then some (off, gen, false)
+    else none
+  | _, _ => none
+
+end Tabula.XrefBytes
